@@ -1,5 +1,45 @@
-From Coq Require Import ZArith.
-From C03 Require Import Model Params.
+(* C03 property theorems.  Nothing but statements closed by `exact`, each followed by Print Assumptions.
+   advertised_int / advertised_ru / advertised_fm (Params.v, ProofsTop.v) hold minCardinality()/maxCardinality() exactly as
+   the implementation compiled from the current tree printed them on this run; canon p a := 0 <= a < p.
+   The modelled operations (Model.v, ModelF.v) contain every conversion / wrap modulo 2^w of the C and RecInt types and
+   every IEEE rounding explicitly, so "= exact residue" states that no overflow, wrap or rounding is observable. *)
+From Coq Require Import ZArith List.
+From C03 Require Import Model ModelF Params ProofsInt ProofsEuclid ProofsIntInv ProofsRU ProofsFM ProofsTop.
 Local Open Scope Z_scope.
-Theorem C03_placeholder : cast (mk_ity 8 false) 3 = 3. Proof. reflexivity. Qed.
-Print Assumptions C03_placeholder.
+
+(* integral Modular<S,C>: every instantiated (Storage_t, Compute_t) pair, every p in [minCardinality, maxCardinality] *)
+Theorem C03_integral_add_addin_exact : Int_add_stmt.        Proof. exact int_add. Qed.
+Print Assumptions C03_integral_add_addin_exact.
+Theorem C03_integral_sub_neg_exact : Int_sub_neg_stmt.      Proof. exact int_sub_neg. Qed.
+Print Assumptions C03_integral_sub_neg_exact.
+Theorem C03_integral_mul_exact : Int_mul_stmt.              Proof. exact int_mul. Qed.
+Print Assumptions C03_integral_mul_exact.
+Theorem C03_integral_axpy_axmy_maxpy_maxpyin_exact : Int_axpy_stmt.  Proof. exact int_axpy. Qed.
+Print Assumptions C03_integral_axpy_axmy_maxpy_maxpyin_exact.
+Theorem C03_integral_reduce_exact : Int_reduce_stmt.        Proof. exact int_reduce. Qed.
+Print Assumptions C03_integral_reduce_exact.
+Theorem C03_integral_inv_exact : Int_inv_stmt.              Proof. exact int_inv. Qed.
+Print Assumptions C03_integral_inv_exact.
+Theorem C03_integral_div_divin_exact : Int_div_stmt.        Proof. exact int_div. Qed.
+Print Assumptions C03_integral_div_divin_exact.
+Theorem C03_integral_isUnit_iff_gcd_one : Int_isUnit_stmt.  Proof. exact int_isUnit. Qed.
+Print Assumptions C03_integral_isUnit_iff_gcd_one.
+Theorem C03_integral_hypotheses_satisfiable :
+  exists sb sg cb mn mx, In (sb, sg, cb, mn, mx) advertised_int /\ mn <= mx /\ canon mx (mx - 1).
+Proof. exact int_hyps_sat. Qed.
+Print Assumptions C03_integral_hypotheses_satisfiable.
+(* extended_euclid<T> for any integer type T representing [0,b]: no intermediate leaves [0,b]; x*a = gcd (mod b) *)
+Theorem C03_extended_euclid_exact : forall T a b, 0 <= a < b ->
+  (forall z, 0 <= z <= b -> cast T z = z /\ ar T z = z) ->
+  (forall fuel x g, extended_euclid T fuel a b = Some (x, g) -> EE_post a b x g) /\
+  (exists fuel, extended_euclid T fuel a b <> None).
+Proof. exact (fun T a b H F => conj (extended_euclid_ok T a b H F) (extended_euclid_terminates T a b H F)). Qed.
+Print Assumptions C03_extended_euclid_exact.
+(* Modular<ruint<K>,ruint<K'>>: proved for every width; instantiated at the advertised bounds *)
+Theorem C03_recint_ring_exact_all_widths : forall w dbl p, RU_stmt w dbl p.   Proof. exact ru_exact. Qed.
+Print Assumptions C03_recint_ring_exact_all_widths.
+Theorem C03_recint_ring_exact_advertised : RU_adv_stmt.     Proof. exact ru_adv. Qed.
+Print Assumptions C03_recint_ring_exact_advertised.
+(* Modular<float>, Modular<float,double>, Modular<double>: no rounding observable up to maxCardinality *)
+Theorem C03_floating_ring_exact_advertised : FM_adv_stmt.   Proof. exact fm_adv. Qed.
+Print Assumptions C03_floating_ring_exact_advertised.
